@@ -164,6 +164,8 @@ def is_known(prop, o, known):
 
 
 def write_replay(prop, seed, idx, payload):
+    payload.setdefault('seed', seed)
+    payload.setdefault('tier', os.environ.get('VERIF_TIER_EFFECTIVE', 'quick'))
     os.makedirs(V + '/replay', exist_ok=True)
     path = f'{V}/replay/{prop}-{seed}-{idx}.json'
     with open(path, 'w') as f:
@@ -188,6 +190,7 @@ def main():
             i += 1
         i += 1
     seed = int(os.environ.get('VERIF_SEED', '1'))
+    os.environ['VERIF_TIER_EFFECTIVE'] = tier
     if prop not in plans.PLANS:
         log('no plan for', prop)
         return 2
@@ -201,7 +204,19 @@ def main():
         os.remove(evidence_path)
 
     if replay:
-        return plans.do_replay(prop, plan, replay, sys.modules[__name__])
+        try:
+            payload = json.load(open(replay))
+        except Exception as e:
+            log('cannot read replay file:', e)
+            return 2
+        print(json.dumps(payload, indent=1, ensure_ascii=False)[:4000])
+        rc_single = plans.do_replay(prop, plan, replay, sys.modules[__name__])
+        seed = int(payload.get('seed', seed))
+        tier = payload.get('tier', tier)
+        log(f'replaying the whole {tier} run of {prop} with seed {seed} (generators are deterministic in the seed)')
+        os.environ['VERIF_SEED'] = str(seed)
+        ev = dict(work=f'{WORK}/{prop}-{tier}-{os.getpid()}')
+        os.makedirs(ev['work'], exist_ok=True)
 
     # ---- stage 1: proof
     pr = proof_stage(plan, ev)
@@ -217,8 +232,15 @@ def main():
     # ---- stage 2/3: tie + oracle
     binary, err = build_harness(plan.get('features', []))
     if binary is None:
-        log('harness build failed (does /repo build?)\n' + err)
-        return 2
+        # does ructe itself still build? if so only the hook module no longer fits the code: the tie
+        # to the source is broken and the property is no longer shown to hold
+        plain = run(['cargo', 'build', '--offline', '--manifest-path', '/repo/Cargo.toml', '--target-dir', HARNESS + '/target-plain'], cwd='/repo')
+        if plain.returncode != 0:
+            log('/repo does not build:\n' + plain.stdout[-3000:])
+            return 2
+        log('the harness (feature verif-hooks) no longer builds against /repo although ructe itself does:\n' + err[-3000:])
+        return finish(prop, plan, tier, seed, t0, pr, [], [], [], {},
+                      broken='the correspondence harness no longer compiles against the current source (hooks do not fit the code any more): ' + err[-1500:])
     private = ev['work'] + '/harness-bin'
     shutil.copy(binary, private)
     results = []
